@@ -21,6 +21,7 @@ from .absint import Interp
 from .report import Finding
 
 WHAT = {
+    "L10": "walk_scenarios flattens the feature: scenarios, every rule's scenarios recursively, every outline's rows (outline / rule objects only on request)",
     "L9": "location texts and features list files are read as written: FILE[:LINE], comments/blank lines skipped, names stripped and resolved against the list file's directory",
     "L1": "entity found at a line expands to exactly its scenarios; isinstance ladders test subclasses first",
     "L3": "bisect works on a sorted key list",
@@ -219,6 +220,37 @@ def check_location_parsing(chk, ix):
         else:
             _fail(chk, "L9", lp, "here=%r -> %r" % (here, got), "a features list file (comments, indented comments, blank lines, padded "
                   "names) read relative to %r gives the names %r; expected %r" % (here, got, want))
+
+
+def check_walk_scenarios(chk, ix, rule="L10"):
+    """ScenarioContainer.walk_scenarios flattens a feature: plain scenarios, the scenarios of every rule (recursively,
+    incl. the rows of outlines inside rules), the rows of every outline; the outline / rule objects only on request."""
+    from .rules_summary import build_tree, _attr_stubs
+    chk.rule(rule, WHAT["L10"])
+    f = ix.func("behave.model:ScenarioContainer.walk_scenarios")
+    for kw, want in (({}, ["S0", "S1", "S2", "O1", "O2", "S3"]),
+                     ({"with_outlines": True}, ["S0", "S1", "S2", "O", "O1", "O2", "S3"]),
+                     ({"with_rules": True}, ["S0", "S1", "R0", "R1", "S2", "O1", "O2", "S3"])):
+        it = Interp(ix, attr_stubs=_attr_stubs(), name="walk_scenarios")
+        it.list_cap = 100
+        it.int_sat = 100
+        st = State()
+        st.frames = []
+        feature, elems = build_tree(ix, st)
+        outs = it.call_function(st, f, [], dict(kw), None, self_val=feature)
+        chk.absorb(it)
+        chk.instance(rule)
+        outs = [o for o in outs if not (o[1] == "raise" and o[2].internal == "assert")]
+        if len(outs) != 1 or outs[0][1] != "val" or not isinstance(outs[0][2], Ref):
+            raise AnalysisError("walk_scenarios not evaluable on the model tree: %r" % ([(k, v) for _, k, v in outs][:3],))
+        s2 = outs[0][0]
+        got = [s2.obj(x).label if isinstance(x, Ref) else repr(x) for x in s2.obj(outs[0][2]).items]
+        if got == want:
+            chk.ok(rule, {"feature": "F[S0, S1, R0[], R1[S2, O[O1, O2]], S3]", "arguments": kw, "walk_scenarios": got}, nontrivial_key=repr(kw))
+        else:
+            _fail(chk, rule, f, "%s -> %s" % (kw or "()", got), "walk_scenarios(%s) of the feature F[S0, S1, R0[], R1[S2, Outline O[O1, O2]], S3] "
+                  "yields %s; expected %s (outline rows inside a rule belong to the flat list)" % (
+                      ", ".join("%s=%s" % kv for kv in kw.items()), got, want))
 
 
 def check_build_feature(chk, ix):
